@@ -21,6 +21,7 @@ PROP_FAMILIES = {
     "C07": (["groestl"], r"."),
     "C08": (["blake", "groestl", "jh", "skein"], r"depends on the partition|a clone taken|reused hasher"),
     "C17": (["blake", "groestl", "jh", "skein"], r"."),
+    "C16": (["align"], r"."),
     "C09": (["threefish"], r"encrypt_block differs"),
     "C10": (["threefish"], r"decrypt_block|!="),
 }
